@@ -9,7 +9,8 @@
 //   call S F [o:ID] [p:NAME:T:V] [out:NAME] ... [r]                                 (applied in order; r last)
 //   T:V = i:<int> u:<unsigned> l:<long> ul:<unsigned long> ll:<long long> ull:<unsigned long long>
 //         s:<hex bytes> p:<id> cp:<id> b:<0|1> m:<hex bytes>   (return values: i u s p cp b)
-// observations: ret none | ret T:V, out NAME <8 bytes hex>, left 0|1, fail <first line of the message>
+// observations: ret none | ret T:V, out NAME <8 bytes hex>, left 0|1, fail <first line of the message>,
+//   hist ... (direct mode: the expectation history of the failure text, see emit_history)
 #include <deque>
 #include "fixture.h"
 #include "CppUTestExt/MockSupport.h"
@@ -78,6 +79,122 @@ std::string canonical_first_line(const std::string& msg) {
         if (k != std::string::npos) l = l.substr(0, k + 1);
     }
     return l;
+}
+
+
+// ---------------------------------------------------------------------------------------------
+// The text of a mock failure beyond its first line: the expectation history
+// (MockFailure::addExpectationsAndCallHistory / ...RelatedTo, MockExpectedCallsList::
+// unfulfilledCallsToString / fulfilledCallsToString / callsWithMissingParametersToString,
+// MockCheckedExpectedCall::callToString / missingParametersToString) in canonical form:
+//   hist U-section <function|*>   header "EXPECTED calls that WERE NOT fulfilled [related to function: F]"
+//   hist F-section <function|*>   header "EXPECTED calls that WERE fulfilled [related to function: F]"
+//   hist M-section <function>     header "EXPECTED calls with MISSING parameters related to function: F"
+//   hist <U|F|M> <name> o:<id|-> w:<lo>-<hi>|w:- in:<n,..|-> out:<n,..|-> iop:<0|1> <expected> <actual>
+//   hist <U|F|M> none             the "<none>" line of an empty section
+//   hist m <n,..|->               "MISSING parameters:" line of the preceding M entry (names, in order)
+// Parameter values and type names are C09/C14 matters and are dropped here.
+std::string csv(const std::vector<std::string>& v) {
+    if (v.empty()) return "-";
+    std::string s;
+    for (size_t i = 0; i < v.size(); i++) { if (i) s += ","; s += v[i]; }
+    return s;
+}
+
+std::vector<std::string> split_on(const std::string& s, const std::string& sep) {
+    std::vector<std::string> out; size_t i = 0;
+    if (s.empty()) return out;
+    for (;;) {
+        size_t k = s.find(sep, i);
+        if (k == std::string::npos) { out.push_back(s.substr(i)); break; }
+        out.push_back(s.substr(i, k - i)); i = k + sep.size();
+    }
+    return out;
+}
+
+std::string last_word(const std::string& s) {
+    size_t k = s.rfind(' ');
+    return k == std::string::npos ? s : s.substr(k + 1);
+}
+
+// one callToString() line -> canonical entry (without the section letter); "?..." if it cannot be read
+std::string canonical_entry(std::string s) {
+    std::string obj = "-";
+    const char* op = "(object address: ";
+    if (s.compare(0, strlen(op), op) == 0) {
+        size_t k = s.find(")::");
+        if (k == std::string::npos) return "?object " + s;
+        unsigned long a = strtoul(s.substr(strlen(op), k - strlen(op)).c_str(), 0, 16);
+        char b[32]; snprintf(b, sizeof b, "%lu", a - 0x2000); obj = b;
+        s = s.substr(k + 3);
+    }
+    size_t k = s.find(" -> ");
+    if (k == std::string::npos) return "?arrow " + s;
+    std::string name = s.substr(0, k);
+    s = s.substr(k + 4);
+    std::string win = "-";
+    unsigned lo = 0, hi = 0;
+    if (sscanf(s.c_str(), "expected call order: <%u> -> ", &lo) == 1) { hi = lo; }
+    else if (sscanf(s.c_str(), "expected calls order: <%u..%u> -> ", &lo, &hi) == 2) { }
+    if (lo) {
+        char b[48]; snprintf(b, sizeof b, "%u-%u", lo, hi); win = b;
+        s = s.substr(s.find(" -> ") + 4);
+    }
+    size_t t = s.rfind(" (expected ");
+    if (t == std::string::npos) return "?counts " + s;
+    unsigned e = 0, a = 0;
+    if (sscanf(s.c_str() + t, " (expected %u call%*[^0-9]%u", &e, &a) != 2) return "?counts " + s;
+    std::string params = s.substr(0, t);
+    int iop = 0;
+    std::vector<std::string> ins, outs;
+    if (params == "no parameters") { }
+    else if (params == "all parameters ignored") iop = 1;
+    else {
+        std::vector<std::string> items = split_on(params, ", ");
+        for (size_t i = 0; i < items.size(); i++) {
+            if (items[i] == "other parameters are ignored" && i + 1 == items.size()) { iop = 1; continue; }
+            size_t c = items[i].find(": <");
+            if (c == std::string::npos) return "?param " + items[i];
+            std::string n = last_word(items[i].substr(0, c));
+            if (items[i].substr(c + 2) == "<output>") outs.push_back(n); else ins.push_back(n);
+        }
+    }
+    char tail[64]; snprintf(tail, sizeof tail, " iop:%d %u %u", iop, e, a);
+    return name + " o:" + obj + " w:" + win + " in:" + csv(ins) + " out:" + csv(outs) + tail;
+}
+
+void emit_history(const std::string& msg) {
+    std::vector<std::string> lines = split_on(msg, "\n");
+    std::string sec;
+    for (size_t i = 1; i < lines.size(); i++) {
+        const std::string& l = lines[i];
+        const char* hm = "\tEXPECTED calls with MISSING parameters related to function: ";
+        const char* hu = "\tEXPECTED calls that WERE NOT fulfilled";
+        const char* hf = "\tEXPECTED calls that WERE fulfilled";
+        const char* rel = " related to function: ";
+        const char* mp = "\t\t\tMISSING parameters: ";
+        if (l.compare(0, strlen(hm), hm) == 0) { sec = "M"; vh::emit("hist M-section %s", l.substr(strlen(hm)).c_str()); }
+        else if (l.compare(0, strlen(hu), hu) == 0 || l.compare(0, strlen(hf), hf) == 0) {
+            bool u = l.compare(0, strlen(hu), hu) == 0;
+            sec = u ? "U" : "F";
+            std::string rest = l.substr(strlen(u ? hu : hf));
+            std::string fn = "*";
+            if (rest.compare(0, strlen(rel), rel) == 0) fn = rest.substr(strlen(rel));
+            else if (rest != ":") fn = "?" + rest;
+            vh::emit("hist %s-section %s", sec.c_str(), fn.c_str());
+        }
+        else if (l.compare(0, strlen(mp), mp) == 0) {
+            std::vector<std::string> items = split_on(l.substr(strlen(mp)), ", "), names;
+            for (size_t k = 0; k < items.size(); k++) names.push_back(last_word(items[k]));
+            vh::emit("hist m %s", csv(names).c_str());
+        }
+        else if (l.compare(0, 2, "\t\t") == 0 && !sec.empty()) {
+            std::string body = l.substr(2);
+            if (body == "<none>") vh::emit("hist %s none", sec.c_str());
+            else vh::emit("hist %s %s", sec.c_str(), canonical_entry(body).c_str());
+        }
+        else sec.clear();       // "ACTUAL unexpected parameter ...", "Actual object ...", blank lines
+    }
 }
 
 struct Scenario {
@@ -250,6 +367,7 @@ void body() {
     }
     catch (const Stop&) {
         vh::emit("fail %s", canonical_first_line(rep.first).c_str());
+        emit_history(rep.first);
     }
     // always leave the global mock clean; the reporter object dies with this frame
     mock().setMockFailureStandardReporter(0);
